@@ -9,7 +9,7 @@ import asyncio
 
 from hypothesis import strategies as st
 
-from vlib import refash, refezsp, vloop
+from vlib import cfg, refash, refezsp, vloop
 from vlib.stack import Stack, make_config
 from vlib.run import Result
 
@@ -422,7 +422,8 @@ def enum_plans(quick):
                 out.append(dict(p, use=True))
     for v in ([4, 8, 13] if quick else VERSIONS):
         for tag_i in range(3):
-            for k in ((2, 4) if quick else (1, 2, 3, 4)):
+            A = cfg.ash_attempts()  # "the configured number of attempts": the last one gets through
+            for k in ((2, A - 1) if quick else tuple(range(1, A))):
                 out.append({"v": v, "path": "serial", "second": "reset", "lose": [tag_i, k]})
     depth = 10 if quick else 70
     vs = [4, 7, 8, 13, 14, 15] if quick else VERSIONS
